@@ -188,6 +188,9 @@ class CoderState(object):
         self.bitmap = None
         self.bitmapped_descriptors = None
 
+    def cancel_new_refvals(self):
+        self.new_refvals = {}
+
     def add_bitmap_link(self):
         """
         Must be called before the descriptor is processed
@@ -544,7 +547,7 @@ class Coder(object):
             else:
                 state.nbits_of_new_refval = operand_value
                 if operand_value == 0:
-                    state.new_refvals = {}
+                    state.cancel_new_refvals()
 
         elif operator_code == 204:  # associated field
             if operand_value == 0:
